@@ -39,6 +39,8 @@ def run_cases(chk, plan, label, crlf_ok=True):
         if ext in ("md", "markdown") and variant % 4 == 2:
             container = ("li", "bq")[(variant // 4) % 2]
             crlf = False
+        if ext in langs.TPL and variant % 4 == 2:
+            container = "tpl"        # the whole file inside a string literal's interpolation: comments there are comments
         # attribute values holding comment-marker characters of every family must come back as written
         extra = {1: " c='#1 //2 ## 3'"} if (variant % 5 == 0 and not bare and ext not in ("md", "markdown")) else None
         # a quoted attribute value continuing on the next comment line; a file without a final line terminator
